@@ -130,8 +130,10 @@ LEVEL_NOTE = ('Nothing is claimed between lattice points. Trusted: ref/geo_c12.p
               'lines within tolerance of a node are excluded, corner clips within a factor 2 of the documented threshold '
               'are accepted either way.')
 
-GEOS = {'quick': ['rect', 'rect_rr', 'g7', 'g7_rr'],
-        'thorough': ['rect', 'rect_rr', 'g7', 'g7_rr', 'g5', 'g5_rr', 'g1', 'g1_rr']}
+GEOS = {'quick': ['rect', 'rect_rr', 'rectnc', 'rectnc_r', 'bulge', 'g7', 'g7_rr'],
+        'thorough': ['rect', 'rect_rr', 'rectnc', 'rectnc_r', 'bulge', 'g7', 'g7_rr', 'g5', 'g5_rr', 'g1', 'g1_rr']}
+BULGE_TURNS = (0.1, 0.2, 0.4, 0.7, 1.6)      # degrees; turn of the outer boundary at the moved nodes of 'bulge'
+NEAR_NODE_T = (1e-3, 1e-2)                  # near-node points: node + t x (vertex mean of an adjacent column - node)
 NP = 41                    # point lattice
 NLOC = 3                   # per-column lattice
 NLINE = {'quick': 7, 'thorough': 9}
@@ -202,6 +204,29 @@ def _library_geometry(name):
                     geo.set_column_num_layers(col)
             geo.setup_block_name_index()
             geo.setup_block_connection_name_index()
+        elif base in ('rectnc', 'rectnc_r'):
+            # a 3x3 grid one of whose interior nodes is dragged into the diagonally opposite column: that column becomes
+            # a NON-CONVEX (arrowhead) quadrilateral, its three partners stay simple; '_r': rotated by 30 degrees
+            geo = mulgrid().rectangular([100., 150., 200.], [120., 100., 180.], [10., 20., 30.], atmos_type=2)
+            nd = [n for n in geo.nodelist if float(n.pos[0]) == 100. and float(n.pos[1]) == 120.][0]
+            nd.pos = np.array([190., 185.])
+            for col in geo.columnlist:
+                col.centre = col.centroid
+                col.get_area()
+            if base.endswith('_r'):
+                geo.rotate(30., centre=[225., 200.])
+        elif base == 'bulge':
+            # a 6x2 grid of 1 km columns whose straight outer sides carry shallow CONVEX corners: single boundary nodes
+            # moved outwards so that the boundary turns there by BULGE_TURNS degrees (all above the documented
+            # colinearity tolerance of simplify_polygon, 1e-6 on 1 - cos(turn) = 0.081 degrees)
+            geo = mulgrid().rectangular([1000.] * 6, [1000.] * 2, [10., 20., 30.], atmos_type=2)
+            spots = [(1000., 0., -1.), (3000., 0., -1.), (5000., 0., -1.), (2000., 2000., 1.), (4000., 2000., 1.)]
+            for (x, y, sgn), turn in zip(spots, BULGE_TURNS):
+                nd = [n for n in geo.nodelist if float(n.pos[0]) == x and float(n.pos[1]) == y][0]
+                nd.pos = np.array([x, y + sgn * 1000. * math.tan(math.radians(turn) / 2.)])
+            for col in geo.columnlist:
+                col.centre = col.centroid
+                col.get_area()
         else:
             geo = mulgrid(os.path.join(core.REPO, 'tests', 'mulgrid', base + '.dat'))
     old = None
@@ -310,6 +335,21 @@ class Ctx(object):
                           else (yv, -w * 2.0 ** -52, w * 2.0 ** -52)):
                     pts.append((xv + fx * w, y))
             self.vpts.append(pts)
+            floats += [q[0] for q in pts] + [q[1] for q in pts]
+        # near-node points: just inside every column at each of its nodes (where neighbour / quadtree-leaf / bounds
+        # decisions are made, and where a simplified boundary polygon differs from the true outline)
+        adj = {}
+        for ci, pl in enumerate(self.polys):
+            for v in pl:
+                adj.setdefault(v, []).append(ci)
+        self.npts = []
+        for v in self.vnodes:
+            pts = []
+            for ci in adj[v]:
+                c = self.vc[ci]
+                for t in NEAR_NODE_T:
+                    pts.append((v[0] + t * (c[0] - v[0]), v[1] + t * (c[1] - v[1])))
+            self.npts.append(pts)
             floats += [q[0] for q in pts] + [q[1] for q in pts]
         self.frame = G.Frame(floats)
         self.mesh = G.Mesh(self.frame, list(zip(self.labels, self.polys)), EDGE_TOL)
@@ -425,7 +465,7 @@ def units(tier):
     nline = NLINE[tier]
     for g in GEOS[tier]:
         big = g[:2] in ('g5', 'g1')
-        nrow = 4 if g.startswith('rect') else 14
+        nrow = 4 if g.startswith('rect') or g == 'bulge' else 14
         for ch in core.chunks(range(NP), nrow):
             us.append(('P', g, ch[0], ch[-1] + 1))
         ncolchunk = 12 if big else 3
@@ -1197,6 +1237,8 @@ def _run_unit(unit, tier, rec):
                 continue
             for k, p in enumerate(pts):
                 do_point(ctx, ('V', vi, k), p, tier, rec, pairs=False, all_guesses=False, tag='vertex_aligned_points')
+            for k, p in enumerate(ctx.npts[vi]):
+                do_point(ctx, ('N', vi, k), p, tier, rec, pairs=False, all_guesses=False, tag='near_node_points')
     elif kind == 'L':
         do_lines(ctx, lo, hi, tier, rec)
     else:
